@@ -20,8 +20,18 @@ def k_case(rec):
 KNOWN = {}
 
 
+def oracle_ap_frame(dhex, a):
+    d = bits_of(int(dhex, 16), len(dhex) * 4)
+    return hex_of(spec.with_parity(d, a))
+
+
 def cases(ctx):
     rng = ctx.rng
+    for _ in range(400):
+        n = rng.choice([56, 112])
+        d = spec.background(rng, n - 24)
+        a = rng.getrandbits(24)
+        yield dict(op="spec.encodeAP %s %d" % (hex_of(d), a), real=("h:props.C02.oracle_ap_frame", [hex_of(d), a]), tag="spec-tie", trivial=True)
     addrs = [0, 0xFFFFFF, 0xABCDEF, 0x123456, 0xA0B1C2, 0x00000A, 0xF00000] + [rng.getrandbits(24) for _ in range(ctx.n(1200, 25000))]
     for a in addrs:
         for df in range(32):
